@@ -123,7 +123,44 @@ fn judge_bdd_dot(st: &mut Stats, text: &str, table: &Tt, names: &[String], fname
     }
 }
 
+/// Diagrams that are NOT reduced (a diagram is a public value: anyone may assemble one): the
+/// quasi-reduced form of a function — every variable tested on every path, equal sub-diagrams
+/// shared, so many nodes have the same node on both branches.
+fn quasi_reduced(t: &Tt, labels: &[usize]) -> Rc<BDD<usize>> {
+    fn go(t: &Tt, labels: &[usize], level: usize, memo: &mut std::collections::HashMap<(usize, String), Rc<BDD<usize>>>, leaves: &(Rc<BDD<usize>>, Rc<BDD<usize>>)) -> Rc<BDD<usize>> {
+        if level == labels.len() {
+            return if t.is_true() { Rc::clone(&leaves.0) } else { Rc::clone(&leaves.1) };
+        }
+        let key = (level, t.hex());
+        if let Some(n) = memo.get(&key) {
+            return Rc::clone(n);
+        }
+        let hi = go(&t.cofactor(level as u32, true), labels, level + 1, memo, leaves);
+        let lo = go(&t.cofactor(level as u32, false), labels, level + 1, memo, leaves);
+        let n = Rc::new(BDD::Choice(hi, labels[level], lo));
+        memo.insert(key, Rc::clone(&n));
+        n
+    }
+    let leaves = (Rc::new(BDD::True), Rc::new(BDD::False));
+    go(t, labels, 0, &mut std::collections::HashMap::new(), &leaves)
+}
+
+fn unreduced_exports(st: &mut Stats) {
+    let labels = vec![2usize, 5, 9];
+    let names: Vec<String> = labels.iter().map(|l| l.to_string()).collect();
+    for bits in 0..256u64 {
+        let t = Tt::from_u64(3, bits);
+        let d = quasi_reduced(&t, &labels);
+        for (fname, f) in FILTERS {
+            let case = || json!({"kind": "bdd-unreduced", "table": t.hex(), "filter": fname});
+            check_bdd_export(st, &d, &t, &names, fname, f, &case);
+            st.bump("exports_of_unreduced_diagrams");
+        }
+    }
+}
+
 fn exhaustive_bdd(st: &mut Stats) {
+    unreduced_exports(st);
     // all 256 functions over 3 variables x 3 filters, usize labels (adjacent + sparse) and String symbols needing escapes
     for labels in [vec![0usize, 1, 2], vec![3usize, 1 << 40, usize::MAX]] {
         let env: BDDEnv<usize> = BDDEnv::new();
@@ -443,6 +480,7 @@ pub fn replay(ctx: &Ctx, _monitor: &str, case: &Value, st: &mut Stats) {
     match case.get("kind").and_then(|k| k.as_str()).unwrap_or("") {
         "tree" => check_tree_text(st, case.get("text").and_then(|t| t.as_str()).unwrap_or(""), "replay"),
         "cli" => cli_case(ctx, st, case.get("text").and_then(|t| t.as_str()).unwrap_or(""), case.get("filter").and_then(|f| f.as_str()), "replay"),
+        "bdd-unreduced" => unreduced_exports(st),
         "big-env" => {
             let mut c2 = ctx.clone();
             c2.seed = case.get("seed").and_then(|j| j.as_u64()).unwrap_or(ctx.seed);
